@@ -83,13 +83,16 @@ enum Want {
 }
 
 fn want_for_string(claim: &str, s: &str, now: i128) -> (Want, &'static str) {
+    let y1971 = rfc3339::days_from_civil(1971, 1, 1) as i128 * 86400 * S;
+    let y9000 = rfc3339::days_from_civil(9001, 1, 1) as i128 * 86400 * S;
     match rfc3339::parse(s) {
         None => (Want::Reject, "not-rfc3339"),
         Some((class, t)) => {
             let (must_reject, must_accept) = if claim == "exp" { (t <= now, t > now) } else { (t > now, t < now) };
             if must_reject {
                 (Want::Reject, if claim == "exp" { "expired" } else { "not-yet-valid" })
-            } else if must_accept && class == Class::Strict {
+            } else if must_accept && class == Class::Strict && (y1971..=y9000).contains(&t) {
+                // acceptance is only demanded inside the quantifier's range of instants (1971 .. 9000)
                 (Want::Accept, "valid")
             } else {
                 // lenient renderings of a valid instant, and nbf == now exactly
@@ -342,6 +345,32 @@ pub fn run(prop: &'static str, tier: &str) -> i32 {
                 }
             }
         }
+        // the application pins the exact exp / nbf it issued with check_claim: the default rule still applies
+        {
+            let key = key_for(*p);
+            let seed = if p.is_local() { domains::seeds(*p)[0].clone() } else { vec![] };
+            for (c2, value, want_ok) in [("exp", "1999-01-01T00:00:00Z", false), ("exp", "2999-01-01T00:00:00Z", true), ("nbf", "2999-01-01T00:00:00Z", false), ("nbf", "1999-01-01T00:00:00Z", true)] {
+                let payload = payload_for(c2, value);
+                let Out::Ok(tok) = adapter::core_issue(*p, &key.sk, &seed, &payload, None, None) else { continue };
+                let ops = vec![POp::Check(adapter::ClaimSpec::auto(c2, json!(value))), POp::Parse(0, 0)];
+                adapter::set_clock(Some(time::OffsetDateTime::from_unix_timestamp_nanos(now).unwrap()));
+                let ev = adapter::parse_history(*p, Layer::Prelude, true, &[key.pk.clone()], &[tok], &ops);
+                adapter::freeze_default_clock();
+                acc.executions += 1;
+                acc.choice_points += 1;
+                if let Some(PEvent::Parsed(o, _)) = ev.last() {
+                    if o.is_ok() == want_ok {
+                        acc.bump("pinned-time-claim:conforms");
+                    } else {
+                        acc.violate(
+                            format!("{}|{}|pinned-{}|{}", prop, p.name(), c2, if want_ok { "rejected-valid" } else { "accepted" }),
+                            format!("PasetoParser::default().check_claim({} = {:?}) on a token carrying exactly that value: {}, expected {}", c2, value, o.short(), if want_ok { "Ok" } else { "a rejection by the default rule" }),
+                            json!({"time_case": TimeCase { proto: *p, now_ns: Some(now.to_string()), payload }, "pinned": c2}),
+                        );
+                    }
+                }
+            }
+        }
         // one parser object while the clock moves: a verdict that depends on the clock must be recomputed
         {
             let key = key_for(*p);
@@ -374,12 +403,20 @@ pub fn run(prop: &'static str, tier: &str) -> i32 {
             }
         }
         // free-running rows (real clock): the +-2 s / +-60 s margins of the statement
-        let real = time::OffsetDateTime::now_utc().unix_timestamp_nanos();
-        for r in [-3652 * 86400 * S, -86400 * S, -3600 * S, -2 * S, 60 * S, 3600 * S, 86400 * S, 3652 * 86400 * S] {
+        for r in [-3652 * 86400 * S, -86400 * S, -3600 * S, -2 * S, -S, 5 * S, 60 * S, 3600 * S, 86400 * S, 3652 * 86400 * S] {
             for off in [0i64, 19800, -86340] {
+                let real = time::OffsetDateTime::now_utc().unix_timestamp_nanos();
                 if let Some(s) = rfc3339::render(real + r, off, 3, 'T', ZForm::Numeric) {
-                    // judged against the real clock at evaluation time: margins of >= 2 s keep this sound
-                    evaluate(prop, &TimeCase { proto: *p, now_ns: None, payload: payload_for(claim, &s) }, &mut acc);
+                    // judged against the real clock at evaluation time; the instants are >= 1 s in the past or
+                    // >= 5 s ahead, and a row is discarded if the machine stalled for more than 2 s around it
+                    let mut row = Acc::default();
+                    evaluate(prop, &TimeCase { proto: *p, now_ns: None, payload: payload_for(claim, &s) }, &mut row);
+                    let elapsed = time::OffsetDateTime::now_utc().unix_timestamp_nanos() - real;
+                    if elapsed < 2 * S {
+                        acc.merge(row);
+                    } else {
+                        acc.bump("free-running-row-discarded(stall)");
+                    }
                     acc.choice_points += 1;
                 }
             }
